@@ -259,7 +259,8 @@ DECOY_CLASSES = ["line_comment", "block_comment", "doc_comment", "inner_doc", "b
                  "deeper_path",
                  # comment and string corner cases
                  "block_stars", "block_star_space_slash", "block_nested_look", "line_trailing_backslash", "doc_block",
-                 "no_literal_kv", "after_string_ending_in_backslash", "line_comment_after_string", "block_with_quote"]
+                 "no_literal_kv", "after_string_ending_in_backslash", "line_comment_after_string", "block_with_quote",
+                 "line_comment_bare_cr"]
 
 
 def decoy_text(cls, marker, rnd, macros, eol):
@@ -301,6 +302,7 @@ def decoy_text(cls, marker, rnd, macros, eol):
         "no_literal_kv": '%s!(a = 1, b:? = x; MSG_%s);' % (name, marker),
         "after_string_ending_in_backslash": 'let p = "dir\\\\"; let q = "%s!(\\"%s quoted after backslash string\\")";' % (name, marker),
         "line_comment_after_string": 'let s = "text"; // %s!("%s comment after a string")' % (name, marker),
+        "line_comment_bare_cr": '// note\r    %s!("%s after a bare carriage return inside a line comment");' % (name, marker),
         "block_with_quote": '/* it\'s "quoted %s!("%s in block with quotes") */' % (name, marker),
     }
     for k in list(extra):
